@@ -428,11 +428,11 @@ Definition handle_star (cf : cfg) (st : pst) (it : iter) (cur : list item) : pst
     end
   else (st2, it2, T value2 :: cur).
 
-(* clean_up_inverse (1369-1398) on a reversed list *)
-Fixpoint cui_go (cf : cfg) (nested : bool) (cur : list item) (after : str) : list item * str :=
+(* clean_up_inverse (1369-1398) on a reversed list; returns (items, text after, number of holes closed) *)
+Fixpoint cui_go (cf : cfg) (nested : bool) (cur : list item) (after : str) : list item * str * Z :=
   (* walks from the last item to the first; `after` = text of everything after the current index *)
   match cur with
-  | [] => ([], after)
+  | [] => ([], after, 0)
   | x :: cur' =>
     match x with
     | H star =>
@@ -440,16 +440,16 @@ Fixpoint cui_go (cf : cfg) (nested : bool) (cur : list item) (after : str) : lis
                      else after ++ (if c_pathname cf then c_path_eop cf else Frag.u_EOP) in
       let content' := if c_capture cf then replace_all (S_ "(?#)") (S_ "?:") content else content in
       let new := content' ++ format Frag.u_EXCLA_GROUP_CLOSE star [] in
-      let '(done, _) := cui_go cf nested cur' (new ++ after) in
-      (T new :: done, after)
+      let '(done, _, n) := cui_go cf nested cur' (new ++ after) in
+      (T new :: done, after, n + 1)
     | T s =>
-      let '(done, _) := cui_go cf nested cur' (s ++ after) in
-      (T s :: done, after)
+      let '(done, _, n) := cui_go cf nested cur' (s ++ after) in
+      (T s :: done, after, n)
     end
   end.
 Definition clean_up_inverse (cf : cfg) (st : pst) (cur : list item) (nested : bool) : pst * list item :=
   if Z.eqb (inv_ext st) 0 then (st, cur)
-  else (set_inv_ext st 0, fst (cui_go cf nested cur [])).
+  else let '(done, _, n) := cui_go cf nested cur [] in (set_inv_ext st (inv_ext st - n), done).
 
 Definition ext_types : str := Sets.EXT_TYPES.
 
